@@ -586,6 +586,43 @@ Section CHAIN.
     - intros Hn. destruct (chain_of ch 0) eqn:E; [congruence|]. eapply sits_mid_nonempty. rewrite <- E. now apply sits_head.
     - simpl. left. auto.
   Qed.
+  (* jump tables: entering the i-th table entry after the pass is related to entering the i-th entry before it *)
+  Lemma chain_data_related db da :
+    chain_data_check f g ch db da = true ->
+    forall a Tb i tb ta c m, nth_block g a <> [] -> djmp_of (nth_block f (last (chain_of ch a) a)) = Some Tb ->
+      nth_error db i = Some tb -> nth_error da i = Some ta -> In tb (labels_of (i_args Tb)) ->
+      Rc (Run ta 0 (Some a) c m) (Run tb 0 (Some (last (chain_of ch a) a)) c m).
+  Proof.
+    intros H a Tb i tb ta c m Hne Hdj Hb Ha Hin. unfold chain_data_check in H.
+    pose proof (nth_block_in_range _ _ Hne) as Hr. destruct HC_parts as [HL _].
+    assert (Hr2 : (N.to_nat a < List.length f)%nat) by (clear - Hr HL; unfold func, block in *; lia).
+    pose proof (forallb_seq _ _ H _ Hr2) as Hx. cbv beta zeta in Hx. rewrite N2Nat.id in Hx.
+    apply orb_true_iff in Hx as [Hx|Hx]; [destruct (nth_block g a); [congruence|discriminate]|].
+    rewrite Hdj in Hx. destruct (last_inst (nth_block g a)) as [Ta|]; try discriminate.
+    unfold table_ok in Hx. pose proof (forall2b_nth _ _ _ _ _ _ Hx Hb Ha) as Hy. cbv beta in Hy.
+    apply andb_true_iff in Hy as [_ Hy]. apply memN_In in Hin. rewrite Hin in Hy. simpl in Hy.
+    unfold edge_ok in Hy. destruct (thread f (List.length f) (last (chain_of ch a) a) tb ta) as [p'|] eqn:Et; try discriminate.
+    apply andb_true_iff in Hy as [H1 H2].
+    eapply (Rc_tr ta 0 None ta (chain_of ch ta)); eauto.
+    - apply sits_head. intros E. rewrite E in H1. discriminate.
+    - simpl. right. eauto.
+  Qed.
+
+  Theorem chain_bisimulation_data db da :
+    chain_data_check f g ch db da = true ->
+    exists R, bisimulation M osem lv g f R /\
+      forall a Tb i tb ta c m, nth_block g a <> [] -> djmp_of (nth_block f (last (chain_of ch a) a)) = Some Tb ->
+        nth_error db i = Some tb -> nth_error da i = Some ta -> In tb (labels_of (i_args Tb)) ->
+        R (Run ta 0 (Some a) c m) (Run tb 0 (Some (last (chain_of ch a) a)) c m).
+  Proof.
+    intros H. exists Rc. split; [|now apply chain_data_related].
+    split; [|split; [apply chain_fwd | apply chain_bwd]].
+    intros c m. destruct HC_parts as [_ [Hg0 _]].
+    apply (Rc_in 0%N 0%nat None 0%N (chain_of ch 0) 0%nat None None c m).
+    - now apply sits_head.
+    - intros Hn. destruct (chain_of ch 0) eqn:E; [congruence|]. eapply sits_mid_nonempty. rewrite <- E. now apply sits_head.
+    - simpl. left. auto.
+  Qed.
 End CHAIN.
 
 Theorem chain_check_sound f g ch :
